@@ -105,6 +105,8 @@ impl Property for C07 {
 
         // attribution: rows produced per input line by the unlimited statement
         let mut rows_per_line: Vec<usize> = Vec::new();
+        // rows of the unlimited statement on the per-line (follow) path, as Debug text
+        let mut follow_rows: Vec<String> = Vec::new();
         if !aggregate {
             let mut engine = match crate::run::catch(|| ExecutionEngine::with_executed_joined_table(&unlimited.tables, &unlimited.statement)) {
                 Ok(Ok(e)) => e,
@@ -113,7 +115,11 @@ impl Property for C07 {
             };
             for line in &all_lines {
                 match engine_line(&mut engine, line, &ExecutionConfig::default()).map_err(panic_fail)? {
-                    Ok(lo) => rows_per_line.push(lo.result.map(|r| r.data.len()).unwrap_or(0)),
+                    Ok(lo) => {
+                        let data = lo.result.map(|r| r.data).unwrap_or_default();
+                        rows_per_line.push(data.len());
+                        follow_rows.extend(data.iter().map(|r| format!("{:?}", r.columns)));
+                    }
                     Err(e) => return Err(Failure::new("engine-error", format!("{}\n  {}", e, context))),
                 }
             }
@@ -190,6 +196,38 @@ impl Property for C07 {
                     format!("consumption: {}", class),
                     format!("LIMIT {} consumed {} input lines, expected {}\n  {}", n, l.total_lines, expected_consumed, context),
                 ));
+            }
+            // the per-line (follow) path: feed lines until the engine reports the limit, as FollowFileExecutor does
+            if !aggregate {
+                let mut engine = match crate::run::catch(|| ExecutionEngine::with_executed_joined_table(&limited.tables, &limited.statement)) {
+                    Ok(Ok(e)) => e,
+                    _ => continue,
+                };
+                let mut got: Vec<String> = Vec::new();
+                let mut fed = 0u64;
+                if !engine.reached_limit() {
+                    for line in &all_lines {
+                        fed += 1;
+                        match engine_line(&mut engine, line, &ExecutionConfig::default()).map_err(panic_fail)? {
+                            Ok(lo) => {
+                                if let Some(r) = &lo.result {
+                                    got.extend(r.data.iter().map(|r| format!("{:?}", r.columns)));
+                                }
+                                if lo.reached_limit {
+                                    break;
+                                }
+                            }
+                            Err(_) => break,
+                        }
+                    }
+                }
+                let want: Vec<String> = follow_rows.iter().take(n as usize).cloned().collect();
+                if got != want {
+                    return Err(Failure::new(format!("follow-path-not-a-prefix: {}", class), format!("LIMIT {} on the per-line path gives {:?}, the first rows without LIMIT are {:?}\n  {}", n, got, want, context)));
+                }
+                if fed != expected_consumed {
+                    return Err(Failure::new(format!("follow-path-consumption: {}", class), format!("LIMIT {} on the per-line path took {} lines, expected {}\n  {}", n, fed, expected_consumed, context)));
+                }
             }
         }
         Ok(())
